@@ -143,7 +143,7 @@ def run_job(job):
         for o in obls:
             if o.st not in sts:
                 sts.append(o.st)
-        if obls and not any(s_.sat() for s_ in (sts[:2] + sts[-2:])):
+        if obls and not any(s_.sat() for s_ in (sts[:20] + sts[-20:])):
             out['error'] = 'vacuous unit: no feasible path among the explored ones (contradictory requires?)'
         from . import lib
         out['assumptions'] = sorted(lib.USED)
